@@ -1,7 +1,7 @@
 """C05 - text that already fits is returned unchanged; the shortcut path is unobservable."""
 from ..sym import sym_of
 from ..engine import AnchorMissing
-from ..poly import poly, fact_nf
+from ..poly import poly, fact_nf, GT0, GE0, EQ0, NE0
 from ..paths import PathView, contradictory
 from ..describe import describe
 from ..idioms import empty_fact, vec_empty_fact
@@ -45,7 +45,7 @@ def _measure_ok(nfs, x, width):
     """one of: width - M(x) > 0 or >= 0 with M in {len, display_width}"""
     for M in ("str::len", "crate::core::display_width"):
         p = poly(width) - poly(("call", M, (x,)))
-        if ("gt0", p) in nfs or ("ge0", p) in nfs or ("gt0", p + poly(("int", 1))) in nfs:
+        if GT0(p) in nfs or GE0(p) in nfs or GT0(p + poly(("int", 1))) in nfs:
             return M
     return None
 
